@@ -16,7 +16,6 @@ import (
 	"fmt"
 	"io"
 	"log"
-	"runtime/debug"
 
 	"golang.org/x/crypto/ssh"
 	"golang.org/x/crypto/ssh/testdata"
@@ -99,10 +98,6 @@ type world struct {
 }
 
 func run(c *vf.Ctx) {
-	// The live heap is tiny and the code under test allocates a lot, so the default pacing
-	// would run a collection every few milliseconds on all cores: collect by limit instead.
-	debug.SetGCPercent(-1)
-	debug.SetMemoryLimit(1 << 30)
 	log.SetOutput(io.Discard) // ServeAgent logs every failed request
 	c.Rule("sequence mode: every history over the operation alphabet up to depth D (4 quick, 6 thorough), a successor being expanded only when (private keyring state read verbatim through the hook, model state) is new; each history replayed from scratch on a fresh keyring directly, through the pipelined client<->ServeAgent and through the serialised client<->ServeAgent, every step compared with the abstract agent. A state is non-trivial from depth 2 on. Totality: every request body of <=3 bytes, and every truncation, internal length-field rewrite and frame-length rewrite of every valid request message, through ServeAgent without panic")
 	c.Assume("keys are fixed test keys (ssh/testdata); signatures are verified by the independent verifier ref/sshsigref (stdlib rsa/ecdsa/ed25519)")
